@@ -16,12 +16,11 @@ EXTENDS Poly
 
 CONSTANT NFun      \* number of functions the client needs (1..30); sizes every table below
 
-R(n, d) == RFrac(n, d)
 
-Hermite == << <<R(1,2), R(-3,4), RZero, R(1,4)>>,
-              <<R(1,8), R(-1,8), R(-1,8), R(1,8)>>,
-              <<R(1,2), R(3,4),  RZero, R(-1,4)>>,
-              <<R(-1,8), R(-1,8), R(1,8), R(1,8)>> >>
+Hermite == << <<RQ(1,2), RQ(-3,4), RZero, RQ(1,4)>>,
+              <<RQ(1,8), RQ(-1,8), RQ(-1,8), RQ(1,8)>>,
+              <<RQ(1,2), RQ(3,4),  RZero, RQ(-1,4)>>,
+              <<RQ(-1,8), RQ(-1,8), RQ(1,8), RQ(1,8)>> >>
 
 RECURSIVE Fact(_)
 Fact(n) == IF n <= 0 THEN BOne ELSE BMul(BFromInt(n), Fact(n-1))
@@ -44,7 +43,7 @@ RECURSIVE LegSeq(_)
 LegSeq(n) == IF n = 0 THEN << <<ROne>> >>
              ELSE IF n = 1 THEN << <<ROne>>, PX >>
              ELSE LET s == LegSeq(n-1)
-                  IN Append(s, PScale(R(1, n), PSub(PScale(RFromInt(2*n-1), PMul(PX, s[n])),
+                  IN Append(s, PScale(RQ(1, n), PSub(PScale(RFromInt(2*n-1), PMul(PX, s[n])),
                                                     PScale(RFromInt(n-1), s[n-1]))))
 LegAll == LegSeq(IF NFun > 3 THEN NFun - 3 ELSE 0)
 Leg(n) == LegAll[n+1]
